@@ -52,7 +52,7 @@ def kind_of(o):
 
 def check(c):
     c.rule = ('valid images of 29 base histories (every value kind incl. closures with scopes) and of random histories; per image: every truncation, '
-              'single-byte substitutions {0,1,2,3,36,37,0x7f,0x80,200,0xff,b^1,b+1,b-1} and 8-byte overwrites {0,1,2,2^32,2^40,2^60,2^61,2^63-1,2^63,2^64-1} '
+              'single-byte substitutions {0,1,2,3,6,7,12,13,14,16,17,31,32,36,37,0x7f,0x80,200,0xff,b^1,b+1,b-1} and 8-byte overwrites {0,1,2,2^32,2^40,2^60,2^61,2^63-1,2^63,2^64-1} '
               'at every offset (quick: a sample of offsets), random byte strings, valid-header-plus-garbage; non-trivial = the mutant differs from every valid image '
               'and is not rejected at its first field; distinct by image bytes')
     names_ok = S.regenerate_names(c)
@@ -80,7 +80,7 @@ def check(c):
             images.append((h, p[1]))
     # ---- mutants ------------------------------------------------------------
     cases = []      # (origin, kind, offset, bytes)
-    per_image = 300 if c.tier == 'quick' else None
+    per_image = 330 if c.tier == 'quick' else None
     for h, img in images:
         cases.append((h, 'valid', 0, img))
         ms = S.mutants(img, r, positions=(20 if c.tier == 'quick' else None), limit=per_image)
